@@ -70,6 +70,15 @@ Proof.
   replace (i32max <? v) with false by (symmetry; apply N.ltb_ge; exact H). reflexivity.
 Qed.
 
+Lemma tok_ttl_text v s : TtlText v s -> v <= u32max -> tok_ttl (Some s) = ROk v.
+Proof. intros T H. unfold tok_ttl. now rewrite (parse_ttl_text _ _ T H). Qed.
+
+Lemma tok_i32_text v s : TtlText v s -> v <= i32max -> tok_i32 (Some s) = ROk v.
+Proof.
+  intros T H. unfold tok_i32. rewrite (tok_ttl_text _ _ T) by now apply i32_lt_u32. cbn [bind].
+  replace (i32max <? v) with false by (symmetry; apply N.ltb_ge; exact H). reflexivity.
+Qed.
+
 Ltac split_ands H :=
   repeat match type of H with
   | _ && _ = true => let H' := fresh "H" in apply andb_true_iff in H as [H H']
@@ -79,35 +88,43 @@ Lemma data_words_parse o d ws : DataWords o d ws -> sdata_ok d = true ->
   rdata_of (sty d) ws (Some (abs_name o)) = ROk (denote_data d).
 Proof.
   intros W Hok. unfold sdata_ok in Hok. apply andb_true_iff in Hok as [Hn Hv].
-  destruct W; cbn [names_of forallb] in Hn; cbn [sty denote_data rty_of_rdata rdata_of nth_error tok_name].
+  destruct W as [a b c d|n t NT|n t NT|n t NT|p n t NT|ss|m r tm tr a b c e f tb tc te tf Nm Nr Tb Tc Te Tf];
+    cbn [names_of forallb] in Hn; cbn [sty denote_data rty_of_rdata rdata_of nth_error tok_name].
   - apply andb_true_iff in Hv as [Hv H4]. apply andb_true_iff in Hv as [Hv H3]. apply andb_true_iff in Hv as [H1 H2].
     apply N.leb_le in H1, H2, H3, H4. now rewrite parse_ipv4_print.
-  - rewrite andb_true_r in Hn. now rewrite (name_text_parse _ _ _ H Hn).
-  - rewrite andb_true_r in Hn. now rewrite (name_text_parse _ _ _ H Hn).
-  - rewrite andb_true_r in Hn. now rewrite (name_text_parse _ _ _ H Hn).
+  - rewrite andb_true_r in Hn. now rewrite (name_text_parse _ _ _ NT Hn).
+  - rewrite andb_true_r in Hn. now rewrite (name_text_parse _ _ _ NT Hn).
+  - rewrite andb_true_r in Hn. now rewrite (name_text_parse _ _ _ NT Hn).
   - rewrite andb_true_r in Hn. apply N.leb_le in Hv. rewrite parse_u16_dec by exact Hv. cbn [opt_r bind].
-    now rewrite (name_text_parse _ _ _ H Hn).
+    now rewrite (name_text_parse _ _ _ NT Hn).
   - reflexivity.
   - apply andb_true_iff in Hn as [Hm Hr]. rewrite andb_true_r in Hr.
     apply andb_true_iff in Hv as [Hv H5]. apply andb_true_iff in Hv as [Hv H4].
     apply andb_true_iff in Hv as [Hv H3]. apply andb_true_iff in Hv as [H1 H2].
     apply N.leb_le in H1, H2, H3, H4, H5.
-    rewrite (name_text_parse _ _ _ H Hm). cbn [bind]. rewrite (name_text_parse _ _ _ H0 Hr). cbn [bind].
+    rewrite (name_text_parse _ _ _ Nm Hm). cbn [bind]. rewrite (name_text_parse _ _ _ Nr Hr). cbn [bind].
     rewrite tok_ttl_dec by exact H1. cbn [bind].
-    rewrite !tok_i32_dec by assumption. cbn [bind].
-    rewrite tok_ttl_dec by exact H5. reflexivity.
+    rewrite (tok_i32_text _ _ Tb H2). cbn [bind]. rewrite (tok_i32_text _ _ Tc H3). cbn [bind].
+    rewrite (tok_i32_text _ _ Te H4). cbn [bind]. rewrite (tok_ttl_text _ _ Tf H5). reflexivity.
 Qed.
 
-Lemma type_text_facts d :
-  parse_ttl (type_text d) = None /\ class_of (upper_str (type_text d)) = None /\
-  type_of (upper_str (type_text d)) = Some (sty d).
-Proof. destruct d; repeat split; reflexivity. Qed.
-
-Lemma class_text_facts k : class_ok k = true ->
-  parse_ttl (class_text k) = None /\ class_of (upper_str (class_text k)) = Some k.
+Lemma type_text_facts d s : Mnem (type_text d) s ->
+  parse_ttl s = None /\ class_of (upper_str s) = None /\ type_of (upper_str s) = Some (sty d).
 Proof.
-  unfold class_ok. intros H. apply orb_true_iff in H as [H|H]; [apply orb_true_iff in H as [H|H]|];
-    apply N.eqb_eq in H; subst; split; reflexivity.
+  intros M. split.
+  - destruct d; eapply parse_ttl_mnem; try exact M; reflexivity.
+  - unfold Mnem in M. rewrite M. destruct d; split; reflexivity.
+Qed.
+
+Lemma class_text_facts k s : class_ok k = true -> Mnem (class_text k) s ->
+  parse_ttl s = None /\ class_of (upper_str s) = Some k.
+Proof.
+  unfold class_ok. intros H M. split.
+  - apply orb_true_iff in H as [H|H]; [apply orb_true_iff in H as [H|H]|];
+      apply N.eqb_eq in H; subst; eapply parse_ttl_mnem; try exact M; reflexivity.
+  - unfold Mnem in M. rewrite M.
+    apply orb_true_iff in H as [H|H]; [apply orb_true_iff in H as [H|H]|];
+      apply N.eqb_eq in H; subst; reflexivity.
 Qed.
 
 (* ------------------------------------------------------------------ *)
@@ -177,13 +194,13 @@ Qed.
 Definition with_tc (c : ctx) (k : N) (this : option N) : ctx :=
   MkCtx (c_origin c) (c_recs c) k (c_cur c) (c_rtype c) (c_default c) (c_last c) this.
 
-Lemma ptoken_ttl c t : t <= u32max ->
-  ptoken c PTtlClassType (TChar (dec t)) = ROk (set_this c (Some t), PTtlClassType).
-Proof. intros H. cbn [ptoken]. now rewrite parse_ttl_dec. Qed.
+Lemma ptoken_ttl c t s : TtlText t s -> t <= u32max ->
+  ptoken c PTtlClassType (TChar s) = ROk (set_this c (Some t), PTtlClassType).
+Proof. intros T H. cbn [ptoken]. now rewrite (parse_ttl_text _ _ T H). Qed.
 
-Lemma ptoken_class c k : class_ok k = true ->
-  ptoken c PTtlClassType (TChar (class_text k)) = ROk (set_class c k, PTtlClassType).
-Proof. intros H. destruct (class_text_facts k H) as [H1 H2]. cbn [ptoken]. now rewrite H1, H2. Qed.
+Lemma ptoken_class c k s : Mnem (class_text k) s -> class_ok k = true ->
+  ptoken c PTtlClassType (TChar s) = ROk (set_class c k, PTtlClassType).
+Proof. intros M H. destruct (class_text_facts k s H M) as [H1 H2]. cbn [ptoken]. now rewrite H1, H2. Qed.
 
 Lemma ptokens_tc ps t k tc explicit c : TtlClassToks ps t k tc explicit ->
   t <= u32max -> class_ok k = true -> c_class c = p_class ps -> c_this c = None ->
@@ -191,9 +208,9 @@ Lemma ptokens_tc ps t k tc explicit c : TtlClassToks ps t k tc explicit ->
                ptokens (with_tc c k (if explicit then Some t else None)) PTtlClassType rest.
 Proof.
   intros T Ht Hk Mk Mt rest. destruct c as [o rs cl cur rt d l th]. cbn in Mk, Mt. subst cl th.
-  destruct T; cbn [app ptokens]; rewrite ?ptoken_ttl, ?ptoken_class by assumption; cbn [ptokens];
-    rewrite ?ptoken_ttl, ?ptoken_class by assumption; unfold with_tc, set_this, set_class; cbn;
-    try reflexivity; subst; reflexivity.
+  destruct T; cbn [app ptokens];
+    repeat (first [ erewrite ptoken_ttl by eassumption | erewrite ptoken_class by eassumption ]; cbn [ptokens]);
+    unfold with_tc, set_this, set_class; cbn; try reflexivity; subst; reflexivity.
 Qed.
 
 Lemma ttl_take_ok ps t (explicit : bool) c : c_default c = p_dttl ps -> c_last c = p_last ps ->
@@ -220,7 +237,7 @@ Theorem line_tokens_ok ps ts o ps' c : LineToks ps ts o ps' -> Match c ps ->
   exists c', ptokens c PStart ts = ROk (c', PStart) /\ line_effect c o ps' c'.
 Proof.
   intros L M Hr. pose proof M as (Mo & Mc & Md & Ml & Mt & Mk).
-  destruct L as [ps|ps|ps n Hn|ps t Ht|ps r own tc explicit rd ws HO HT HD HF].
+  destruct L as [ps|ps|ps n Hn|ps t tt Ht HTT|ps r own tc explicit ty rd ws HO HT HM HD HF].
   - exists (set_rtype c None). split; [reflexivity|]. split; [exact M|cbn; now rewrite app_nil_r].
   - exists (set_rtype c None). split; [reflexivity|]. split; [exact M|cbn; now rewrite app_nil_r].
   - (* $ORIGIN *)
@@ -228,7 +245,7 @@ Proof.
     eexists. split; [reflexivity|]. split; [|cbn; now rewrite app_nil_r].
     repeat split; cbn; assumption.
   - (* $TTL *)
-    cbn [ptokens ptoken]. rewrite parse_ttl_dec by exact Ht. cbn [opt_r bind ptokens ptoken].
+    cbn [ptokens ptoken]. rewrite (parse_ttl_text _ _ HTT Ht). cbn [opt_r bind ptokens ptoken].
     eexists. split; [reflexivity|]. split; [|cbn; now rewrite app_nil_r].
     repeat split; cbn; assumption.
   - (* a record *)
@@ -240,7 +257,7 @@ Proof.
     rewrite (ptokens_owner ps _ own c HO M Hown).
     rewrite (ptokens_tc ps _ _ tc explicit (with_cur c (s_owner r)) HT Httl Hcls) by (cbn; assumption).
     cbn [app ptokens ptoken].
-    destruct (type_text_facts (s_data r)) as (T1 & T2 & T3). rewrite T1, T2, T3.
+    destruct (type_text_facts (s_data r) ty HM) as (T1 & T2 & T3). rewrite T1, T2, T3.
     rewrite (ptokens_app _ _ rd [TEOL] _ _ (ptokens_rdata rd ws _ [] HF)). cbn [app ptokens ptoken].
     (* the insert *)
     unfold ctx_insert. cbn [set_rtype with_tc with_cur c_rtype c_origin c_cur opt_r bind].
@@ -424,6 +441,168 @@ Proof.
 Qed.
 
 (* ------------------------------------------------------------------ *)
+(* a last line without line break: the flush at the end of the input  *)
+(* ------------------------------------------------------------------ *)
+
+Lemma ptokens_snoc_inv : forall ts c st t r, ptokens c st (ts ++ [t]) = ROk r ->
+  exists c1 st1, ptokens c st ts = ROk (c1, st1) /\ ptoken c1 st1 t = ROk r.
+Proof.
+  induction ts as [|x ts IH]; intros c st t r H; cbn [app ptokens] in *.
+  - exists c, st. split; [reflexivity|]. destruct (ptoken c st t) as [[c' st']| | | |]; try discriminate.
+    cbn [ptokens] in H. inversion H; subst. reflexivity.
+  - destruct (ptoken c st x) as [[c' st']| | | |]; try discriminate. now apply IH.
+Qed.
+
+Definition flush (c : ctx) (st : pstate) : R ctx :=
+  match st with PRecord parts => ctx_insert c parts | _ => ROk c end.
+
+(* at the end of the input the flush does what a line break would have done *)
+Lemma flush_eol c st c' : ptoken c st TEOL = ROk (c', PStart) ->
+  exists cf, flush c st = ROk cf /\ c_recs cf = c_recs c' /\ c_origin cf = c_origin c'.
+Proof.
+  destruct st; cbn [ptoken flush]; unfold perr; intros H; try discriminate.
+  - inversion H; subst. exists c. auto.
+  - inversion H; subst. exists c'. auto.
+  - destruct (ctx_insert c parts) as [x| | | |]; cbn [bind] in H; try discriminate.
+    inversion H; subst. exists c'. auto.
+  - destruct p; [destruct (has_prefix [47] s)|]; discriminate.
+Qed.
+
+Lemma distinct_from_app : forall a e b, distinct_from e (a ++ b) = true ->
+  distinct_from e a = true /\ distinct_from (e ++ a) b = true.
+Proof.
+  induction a as [|r a IH]; intros e b H; cbn [app distinct_from] in *.
+  - split; [reflexivity|]. now rewrite app_nil_r.
+  - apply andb_true_iff in H as [H1 H2]. destruct (IH _ _ H2) as [I1 I2].
+    split; [now rewrite H1, I1|]. now rewrite <- app_assoc in I2.
+Qed.
+
+Section Tail.
+  Variable lex : str -> lst -> lres.
+  Variable good : line -> bool.
+  Hypothesis good_toks : forall l rest, good l = true ->
+    Toks lex (render_line l ++ rest) SStartLine (line_tokens l) rest SStartLine.
+
+  (* the lines of a zone, followed by more text whose token lists are [tail] *)
+  Lemma zone_loop_tail : forall lines ps rs c tail rest,
+    forallb good lines = true ->
+    ZoneToks ps (map line_tokens lines ++ tail) rs ->
+    Match c ps ->
+    forallb srec_ok rs = true ->
+    distinct_from (c_recs c) (map denote rs) = true ->
+    exists n c' ps' rs1 rs2,
+      rs = rs1 ++ rs2 /\
+      (forall F, parse_loop lex (n + F) (render_zone lines ++ rest) SStartLine c PStart =
+                 parse_loop lex F rest SStartLine c' PStart) /\
+      Match c' ps' /\ c_recs c' = c_recs c ++ map denote rs1 /\
+      ZoneToks ps' tail rs2 /\ forallb srec_ok rs2 = true /\
+      distinct_from (c_recs c') (map denote rs2) = true.
+  Proof.
+    induction lines as [|l lines IH]; intros ps rs c tail rest Hg Z M Hok Hd.
+    - exists 0%nat, c, ps, [], rs. cbn [map app render_zone flat_map plus] in *.
+      split; [reflexivity|]. split; [intros F; reflexivity|]. split; [exact M|].
+      split; [now rewrite app_nil_r|]. auto.
+    - cbn [map app] in Z. inversion Z as [|ps0' ts o ps1 tss rs' HL HZ]; subst.
+      cbn [forallb] in Hg. apply andb_true_iff in Hg as [Hg1 Hg2].
+      assert (Hside : match o with
+                      | Some r => srec_ok r = true /\ forallb (fun x => negb (collides (denote r) x)) (c_recs c) = true
+                      | None => True end).
+      { destruct o as [r|]; [|exact I]. cbn [map forallb distinct_from] in *.
+        apply andb_true_iff in Hok as [H1 _]. apply andb_true_iff in Hd as [H2 _]. auto. }
+      destruct (line_tokens_ok ps _ o ps1 c HL M Hside) as (c1 & Hp & M1 & Hr1).
+      assert (Hok' : forallb srec_ok rs' = true).
+      { destruct o; [cbn [forallb] in Hok; apply andb_true_iff in Hok as [_ H]; exact H|exact Hok]. }
+      assert (Hd' : distinct_from (c_recs c1) (map denote rs') = true).
+      { rewrite Hr1. destruct o; [cbn [map distinct_from] in Hd; apply andb_true_iff in Hd as [_ H]; exact H|].
+        now rewrite app_nil_r. }
+      destruct (IH ps1 rs' c1 tail rest Hg2 HZ M1 Hok' Hd')
+        as (n & c' & ps' & rs1 & rs2 & Ers & HP & M' & HR & HZ' & Hok2 & Hd2).
+      exists (length (line_tokens l) + n)%nat, c', ps', (match o with Some r => r :: rs1 | None => rs1 end), rs2.
+      split; [destruct o; subst; reflexivity|].
+      split.
+      { intros F. cbn [render_zone flat_map]. fold (render_zone lines). rewrite <- app_assoc.
+        rewrite <- Nat.add_assoc.
+        rewrite (parse_loop_toks _ _ _ _ _ _ (good_toks l (render_zone lines ++ rest) Hg1) _ _ _ _ (n + F)%nat Hp).
+        apply HP. }
+      split; [exact M'|]. split; [|auto].
+      rewrite HR, Hr1. destruct o; cbn [map]; rewrite <- app_assoc; reflexivity.
+  Qed.
+
+  Hypothesis lex_ok : lexer_ok lex.
+
+  (* the zone ends with a line that has no line break *)
+  Lemma zone_last_line o lines last rs rem st :
+    forallb good lines = true ->
+    Toks lex (render_noeol last) SStartLine (line_tokens_noeol last) rem st ->
+    is_end (lex rem st) ->
+    ZoneToks (ps0 o) (map line_tokens lines ++ [line_tokens_noeol last ++ [TEOL]]) rs ->
+    forallb srec_ok rs = true ->
+    distinct (map denote rs) = true ->
+    parse_with lex (Some (abs_name o)) (render_zone lines ++ render_noeol last) = ROk (map denote rs).
+  Proof.
+    intros Hg HT HE Z Hok Hd.
+    destruct (zone_loop_tail lines (ps0 o) rs (ctx0 (Some (abs_name o))) _ (render_noeol last) Hg Z (match0 o) Hok Hd)
+      as (n & c' & ps' & rs1 & rs2 & Ers & HP & M' & HR & HZ' & Hok2 & Hd2).
+    inversion HZ' as [|ps0' ts oo ps1 tss rs' HL HZ0]; subst. inversion HZ0; subst.
+    assert (Hside : match oo with
+                    | Some r => srec_ok r = true /\ forallb (fun x => negb (collides (denote r) x)) (c_recs c') = true
+                    | None => True end).
+    { destruct oo as [r|]; [|exact I]. cbn [map forallb distinct_from] in *.
+      apply andb_true_iff in Hok2 as [H1 _]. apply andb_true_iff in Hd2 as [H2 _]. auto. }
+    destruct (line_tokens_ok ps' _ oo ps1 c' HL M' Hside) as (c2 & Hp & M2 & Hr2).
+    destruct (ptokens_snoc_inv _ _ _ _ _ Hp) as (c1 & st1 & Hp1 & Heol).
+    destruct (flush_eol _ _ _ Heol) as (cf & Hf & Hfr & Hfo).
+    (* the run: all the lines, the tokens of the last line, the end of the input, the flush *)
+    assert (RUN : parse_loop lex (n + (length (line_tokens_noeol last) + 1)) (render_zone lines ++ render_noeol last)
+                    SStartLine (ctx0 (Some (abs_name o))) PStart = ROk cf).
+    { rewrite HP. rewrite (parse_loop_toks _ _ _ _ _ _ HT _ _ _ _ 1%nat Hp1).
+      cbn [parse_loop]. destruct (lex rem st); try contradiction. exact Hf. }
+    unfold parse_with.
+    rewrite (parse_loop_fuel_indep lex (S (length (render_zone lines ++ render_noeol last)))
+               (n + (length (line_tokens_noeol last) + 1))).
+    - rewrite RUN. cbn [bind]. rewrite Hfo. destruct M2 as (Mo & _). rewrite Mo.
+      rewrite Hfr, Hr2, HR. cbn [ctx0 c_recs app]. destruct oo; cbn [map]; rewrite ?app_nil_r, ?map_app; reflexivity.
+    - apply parse_loop_no_fuel; [exact lex_ok|left; reflexivity|lia].
+    - rewrite RUN. discriminate.
+  Qed.
+End Tail.
+
+Theorem zone_roundtrip_last_nocap o lines last rs :
+  forallb line_ok lines = true -> line_noeol_ok last = true ->
+  ZoneToks (ps0 o) (map line_tokens lines ++ [line_tokens_noeol last ++ [TEOL]]) rs ->
+  forallb srec_ok rs = true ->
+  distinct (map denote rs) = true ->
+  parse_nocap (Some (abs_name o)) (render_zone lines ++ render_noeol last) = ROk (map denote rs).
+Proof.
+  intros Hl Hlast Z Hok Hd. destruct (toks_last_line last Hlast) as (rem & st & HT & HE).
+  unfold parse_nocap.
+  eapply (zone_last_line next_token_nocap line_ok); eauto.
+  - intros l rest H. now apply toks_line.
+  - exact next_token_nocap_ok.
+Qed.
+
+Definition good_short (l : line) : bool := line_ok l && short_line l.
+
+Theorem zone_roundtrip_last o lines last rs :
+  forallb good_short lines = true -> line_noeol_ok last = true ->
+  (length (render_noeol last) <= 2045)%nat ->
+  ZoneToks (ps0 o) (map line_tokens lines ++ [line_tokens_noeol last ++ [TEOL]]) rs ->
+  forallb srec_ok rs = true ->
+  distinct (map denote rs) = true ->
+  parse (Some (abs_name o)) (render_zone lines ++ render_noeol last) = ROk (map denote rs).
+Proof.
+  intros Hl Hlast Hlen Z Hok Hd. destruct (toks_last_line last Hlast) as (rem & st & HT & HE).
+  pose proof (toks_len _ nocap_len _ _ _ _ _ HT) as Hrem.
+  unfold parse.
+  eapply (zone_last_line next_token good_short); eauto.
+  - intros l rest H. unfold good_short in H. apply andb_true_iff in H as [H1 H2].
+    apply toks_cap; [now apply toks_line|]. rewrite app_length. unfold short_line in H2. apply N.leb_le in H2. lia.
+  - exact next_token_ok.
+  - apply toks_cap; [exact HT|lia].
+  - rewrite next_token_cap_refines; [exact HE|]. apply next_token_short. lia.
+Qed.
+
+(* ------------------------------------------------------------------ *)
 (* convenience forms for building concrete derivations                *)
 (* ------------------------------------------------------------------ *)
 
@@ -431,13 +610,14 @@ Lemma zt_rec ps ts r ps' tss rs : LineToks ps ts (Some r) ps' -> ZoneToks ps' ts
 Proof. intros H1 H2. exact (zt_cons ps ts (Some r) ps' tss rs H1 H2). Qed.
 Lemma zt_skip ps ts ps' tss rs : LineToks ps ts None ps' -> ZoneToks ps' tss rs -> ZoneToks ps (ts :: tss) rs.
 Proof. intros H1 H2. exact (zt_cons ps ts None ps' tss rs H1 H2). Qed.
-Lemma lt_rec_eq ps r own tc explicit rd ws ts :
+Lemma lt_rec_eq ps r own tc explicit ty rd ws ts :
   OwnerToks ps (s_owner r) own -> TtlClassToks ps (s_ttl r) (s_class r) tc explicit ->
+  Mnem (type_text (s_data r)) ty ->
   DataWords (p_origin ps) (s_data r) ws -> flat_tokens rd = Some ws ->
-  ts = own ++ tc ++ [TChar (type_text (s_data r))] ++ rd ++ [TEOL] ->
+  ts = own ++ tc ++ [TChar ty] ++ rd ++ [TEOL] ->
   LineToks ps ts (Some r)
     (MkPs (p_origin ps) (Some (s_owner r)) (p_dttl ps) (if explicit then Some (s_ttl r) else p_last ps) (s_class r)).
-Proof. intros. subst ts. apply (lt_rec ps r own tc explicit rd ws); assumption. Qed.
+Proof. intros. subst ts. apply (lt_rec ps r own tc explicit ty rd ws); assumption. Qed.
 Lemma nt_rel_eq o n rel t : rel <> [] -> n = rel ++ o -> t = print_rel rel -> NameText o n t.
 Proof. intros. subst t. now apply nt_rel. Qed.
 Lemma nt_abs_eq o n t : t = print_abs n -> NameText o n t.
